@@ -250,7 +250,7 @@ struct World {
     int oc = pick_outcome(vs.server, tx);
     if (vs.tcp && (oc == O_TC || oc == O_EMPTY)) oc = O_ANSWER;
     if (!vs.tcp && (oc == O_RESET || oc == O_EOFMID)) oc = O_SILENCE;
-    if (oc == O_BADCOOKIE && (!tx.has_cookie || vs.tcp)) oc = O_ANSWER;
+    if (oc == O_BADCOOKIE && (!tx.has_cookie || vs.tcp || (sc.cookie_mode != "valid" && sc.cookie_mode != "changing"))) oc = O_ANSWER;   // only a cookie-capable server says BADCOOKIE
     tx.outcome = oc;
     if (oc == O_SILENCE) { txs.push_back(tx); return; }
     if (oc == O_RESET) { vs.reset = true; txs.push_back(tx); return; }
